@@ -61,7 +61,7 @@ def start(world, config):
 
 # ---------------------------------------------------------------------------
 def _mkspec(rng, fmt):
-    sdate = rng.choice([2002154, 2003365, 2004059, 2004366, 1995001, 2011120])
+    sdate = rng.choice([2002154, 2003365, 2004059, 2004366, 1995001, 2011120, 1999365])
     stime = rng.choice([0, 1, 12, 22, 23])
     base = {'nx': rng.randrange(1, 6), 'ny': rng.randrange(1, 6),
             'nz': rng.randrange(1, 4), 'nt': rng.randrange(1, 5),
